@@ -1070,7 +1070,9 @@ std::string runUsage(const Case &c) {
   if (c.discarded) { st.cls("discarded." + c.discardWhy); return ""; }
   const Config &cfg = c.cfg;
   const Variant &v = c.vars[0];
-  RealResult r = runReal(cfg, v.in);
+  RealInput rin = v.in;
+  rin.usageAgain = v.note == "usage";   // a handler may print its usage more than once: the second output must be the same listing
+  RealResult r = runReal(cfg, rin);
   std::string where = "argv " + argvText(v.in.argv) + ": ";
   if (r.setupThrew) return where + "library refused the configuration: " + r.what;
   if (r.threw) return where + "help evaluation threw: " + r.what;
@@ -1156,6 +1158,10 @@ std::string runUsage(const Case &c) {
     e = expectNote("[replaced by", a.deprecated && !a.replacedBy.empty()); if (!e.empty()) return e;
     if (a.longKey.size() >= 36) st.cls("usage.long_key_own_line");
     if (a.longKey.size() == 1) st.cls("usage.one_character_long_key");
+  }
+  if (v.note == "usage" && !r.out2.empty()) {
+    if (out.find(r.out2) == std::string::npos) return where + "the same handler lists its arguments differently when it is printed a second time: \"" + r.out2.substr(0, 300) + "\"";
+    st.cls("usage.printed_twice");
   }
   st.cls(subUsage ? "usage.sub_group" : "usage.full");
   if (printHidden) st.cls("usage.print_hidden");
